@@ -15,7 +15,8 @@ MODULE = "Xandikos.Theorems.C05Tree"
 
 RES = {"InvalidETag": "invalidEtag", "DuplicateUidError": "dupUid", "NoSuchItem": "noSuchItem", "LockedError": "locked"}
 # how many steps of the model an operation has completed when it stands at a yield point
-STEPS_AT = {"check": 1, "before-lock": 1, "locked": 2, "tree-read": 2, "commit": 2}
+STEPS_AT = {"tree": {"check": 1, "before-lock": 1, "locked": 2, "commit": 3},
+            "bare": {"check": 1, "tree-read": 2, "commit": 2}}
 
 
 def body(uid, summary):
@@ -153,7 +154,7 @@ def run(chk):
                                "final": final, "prior": pre,
                                "sequential_outcomes": [[list(o), sr, sf] for o, sr, sf in seq_cache[live]]}
                         if not ok:
-                            why = "stale-check" if STEPS_AT.get(point, 0) == 1 else "stale-tree"
+                            why = "stale-check" if STEPS_AT[kind].get(point, 0) == 1 else "stale-tree"
                             chk.violation(f"C05:not-serialisable:{mode}:{kind}:{why}",
                                           f"{mode}, {kind} store, {label}: A stopped at '{point}', B ran, A resumed: results {res}, "
                                           f"members {sorted(final)} — no sequential order of the operations gives this", rep)
@@ -165,8 +166,8 @@ def run(chk):
                         if mode == "threads":
                             sched = [0, 1] if r["order"][0] == "A" else [1, 0]
                         else:
-                            k = STEPS_AT.get(point, 3)
-                            sched = [0] * k + [1] * 3 + [0] * 3
+                            k = STEPS_AT[kind].get(point, 4)
+                            sched = [0] * k + [1] * 4 + [0] * 4
                         lines.append("qrun %s %s %s" % (mode, kind, ",".join(map(str, sched))))
                         out = run_driver("conc", lines)[-1]
                         want = "res=%s final==%s ser=%s" % (
